@@ -189,7 +189,7 @@ func lexerStage(c *checkCtx) {
 	}
 	fams := []fam{{"names", 4}, {"numbers", 4}, {"quotes", 4}, {"comments", 5}}
 	if c.tier == "thorough" {
-		fams = []fam{{"names", 6}, {"numbers", 6}, {"quotes", 6}, {"comments", 7}}
+		fams = []fam{{"names", 5}, {"numbers", 5}, {"quotes", 5}, {"comments", 6}}
 	}
 	tmpl, err := os.ReadFile(root + "/spec/GenLexer_T.cfg")
 	if err != nil {
